@@ -373,3 +373,27 @@ impl Model {
         })
     }
 }
+
+#[cfg(vibrato_verif)]
+impl Model {
+    /// Verification hook: a freshly merged model (never the cached one) as
+    /// `(weight, left_id, right_id)` per label and `(right_conn_id, left_conn_id, weight)` per
+    /// matrix entry.
+    #[allow(clippy::type_complexity)]
+    pub fn verif_merged(&self) -> Result<(Vec<(f64, u32, u32)>, Vec<(usize, u32, f64)>)> {
+        let merged = self.data.raw_model.merge()?;
+        let sets = merged
+            .feature_sets
+            .iter()
+            .map(|fs| (fs.weight, fs.left_id, fs.right_id))
+            .collect();
+        let mut matrix = vec![];
+        for (r, hm) in merged.matrix.iter().enumerate() {
+            for (&l, &w) in hm {
+                matrix.push((r, l, w));
+            }
+        }
+        Ok((sets, matrix))
+    }
+}
+
